@@ -13,9 +13,23 @@ Numbers are exact: a roll is the 53-bit numerator `n` of the f64 `n·2⁻⁵³`;
 is its threshold `T = ⌈p·2⁵³⌉ ∈ [0,2⁵³]`, so that `roll < p ⟺ n < T`, `p > 0 ⟺ T > 0`,
 `p = 1 ⟺ T = 2⁵³`. Latency bounds are whole milliseconds (`as_millis()` truncates).
 
-For the correspondence check the harness cannot see the private generator; it holds a mirror
-generator and hands the model, with every first poll, the draws the layer would make next
-(`Draws`). `decideDraws` is `decideG` run on the finite generator that replays these draws.
+`decideG` is the decision function of the code AS IT IS TODAY — one admissible function of the seed
+and the request order. The property does not say which function it is ("a deterministic function of the
+seed and the order of requests"), so nothing in the machine below depends on `decideG`: the machine
+CONSUMES the decision the implementation reports for a request at its first poll (monitor mode, `@dec=…`
+on the `poll` line), checks it against the boundary clauses of the property (`allowedDec`: rate 0 ⇒ never,
+rate 1 ⇒ always, latency within the bounds) and predicts the behaviour that decision must have (injected
+error at once and no inner call / inner call after exactly the latency / inner call in the first poll).
+A refactor that changes the draw scheme (how many random numbers are drawn, in which order, from which
+generator) and keeps the property therefore still corresponds. That the decisions ARE a function of seed and
+request order is decided on the implementation side by the determinism monitors (equally seeded services given
+the same requests in the same order must report identical decisions and latencies); the theorems quantify over
+an ARBITRARY decision stream per service (`TR.Chaos.runD`), of which `decideG` threaded over a lawful generator
+is one instance (`TR.Chaos.decideG_allowed`).
+
+Several services built from one layer value (`arrive c svc=<k> …`): the seeded stream is per SERVICE
+(`Chaos::new` → `config.create_rng()`), shared by the clones of that service and by nothing else. The machine
+keeps the decisions per service (`State.decs : List (svc × Decision)`, `decsOn`).
 -/
 namespace TR.Chaos
 
@@ -67,33 +81,20 @@ def streamG {γ : Type} (G : Gen γ) (cfg : Cfg) : γ → Nat → List Decision
   | _, 0 => []
   | g, n + 1 => (decideG G cfg g).1 :: streamG G cfg (decideG G cfg g).2 n
 
-/-! ## draws as inputs (monitor mode) -/
+/-! ## decisions as inputs (monitor mode): the boundary clauses of the property -/
 
-/-- the next draws of the generator, speculatively: first and second `f64`, the range draw if
-made after one `f64` (no error roll) and if made after two -/
-structure Draws where
-  r1 : Nat
-  r2 : Nat
-  g1 : Nat
-  g2 : Nat
-deriving DecidableEq, Repr, Inhabited
+/-- an injected latency of `ms` is within `[min_latency, max_latency]`; when that interval is empty or a point
+(`min ≥ max`) the code uses `min_latency` -/
+def inBounds (cfg : Cfg) (ms : Nat) : Bool :=
+  if cfg.maxMs > cfg.minMs then decide (cfg.minMs ≤ ms) && decide (ms ≤ cfg.maxMs) else decide (ms = cfg.minMs)
 
-/-- finite generator replaying `d`; its state counts the `f64` and the range draws made -/
-def scriptGen (d : Draws) : Gen (Nat × Nat) where
-  nextF := fun s => (if s.1 = 0 then d.r1 else d.r2, (s.1 + 1, s.2))
-  nextR := fun _ _ s => (if s.1 = 1 then d.g1 else d.g2, (s.1, s.2 + 1))
-
-/-- decision and number of draws consumed -/
-def decideDraws (cfg : Cfg) (d : Draws) : Decision × Nat :=
-  let r := decideG (scriptGen d) cfg (0, 0)
-  (r.1, r.2.1 + r.2.2)
-
-def inRange (cfg : Cfg) (x : Nat) : Bool := decide (cfg.minMs ≤ x) && decide (x ≤ cfg.maxMs)
-
-/-- the contracts of `rand`: a roll is below 1; a range draw lies in the range -/
-def allowed (cfg : Cfg) (d : Draws) : Bool :=
-  decide (d.r1 < P53) && decide (d.r2 < P53) &&
-    (!decide (cfg.maxMs > cfg.minMs) || (inRange cfg d.g1 && inRange cfg d.g2))
+/-- What the property allows a decision to be, whatever the decision function is: error rate 0 ⇒ never an
+error, error rate 1 ⇒ always an error; latency rate 0 ⇒ never a delay, latency rate 1 ⇒ every request that is
+not failed is delayed; a delay lies within the bounds. -/
+def allowedDec (cfg : Cfg) : Decision → Bool
+  | .error => decide (cfg.eT > 0)
+  | .latency ms => decide (cfg.eT < P53) && decide (cfg.lT > 0) && inBounds cfg ms
+  | .pass => decide (cfg.eT < P53) && decide (cfg.lT ≠ P53)
 
 /-! ## the state machine: one poll of one call future per step -/
 
@@ -101,7 +102,7 @@ def allowed (cfg : Cfg) (d : Draws) : Bool :=
 def injected (tag : Nat) : Res := .inner 99 tag
 
 inductive Phase
-  | fresh (tag : Nat) (st : Step)
+  | fresh (svc tag : Nat) (st : Step)                  -- `svc`: the service (of the one layer value) the request was made on
   | sleeping (wake : Nat) (st : Step)                -- `tokio::time::sleep(latency).await`
   | inner (k doneAt : Nat) (out : Out)
   | done
@@ -111,16 +112,15 @@ structure State where
   now    : Nat := 0
   phase  : List (Nat × Phase) := []
   serial : Nat := 0
-  decs   : List Decision := []            -- ghost: decisions in the order they were taken
+  decs   : List (Nat × Decision) := []    -- ghost: (service, decision) in the order the decisions were taken
   decOf  : List (Nat × Decision) := []    -- ghost: decision per caller
-  used   : Nat := 0                       -- ghost: draws consumed so far
   gone   : Bool := false                  -- `manual dropsvc`: the caller has dropped every handle of the service
   log    : List Ev := []
 deriving Repr
 
 inductive Op
-  | arrive (c tag : Nat) (st : Step)
-  | poll (c : Nat) (d : Option Draws)
+  | arrive (c svc tag : Nat) (st : Step)  -- request `c` is made on service `svc` of the layer value
+  | poll (c : Nat) (d : Option Decision)  -- `d`: the decision the implementation reports in this poll, if any
   | drop (c : Nat)
   | adv (ms : Nat)
   | dropsvc                               -- the caller drops every handle of the service, and the layer
@@ -149,12 +149,16 @@ def startInner (s : State) (c : Nat) (st : Step) : State :=
 def pollSleeping (s : State) (c wake : Nat) (st : Step) : State :=
   if s.now ≥ wake then startInner s c st else s
 
-def record (s : State) (c : Nat) (dec : Decision) (n : Nat) : State :=
-  { s with decs := s.decs ++ [dec], decOf := (c, dec) :: s.decOf, used := s.used + n }
+/-- the decisions taken on service `k`, in the order they were taken (= the order of the first polls of the
+requests made on `k`) -/
+def decsOn (s : State) (k : Nat) : List Decision := (s.decs.filter (fun p => p.1 == k)).map (·.2)
 
-/-- the observed draws must satisfy the contracts of `rand` -/
-def checked (cfg : Cfg) (s : State) (d : Draws) : State :=
-  if allowed cfg d then s else emit s [.raw "choice-not-allowed"]
+def record (s : State) (c k : Nat) (dec : Decision) : State :=
+  { s with decs := s.decs ++ [(k, dec)], decOf := (c, dec) :: s.decOf }
+
+/-- the observed decision must be one the property allows under this configuration -/
+def checked (cfg : Cfg) (s : State) (dec : Decision) : State :=
+  if allowedDec cfg dec then s else emit s [.raw "choice-not-allowed"]
 
 /-- service.rs:91-152: return the injected error at once / sleep, then call / call -/
 def enact (s : State) (c tag : Nat) (st : Step) : Decision → State
@@ -162,31 +166,31 @@ def enact (s : State) (c tag : Nat) (st : Step) : Decision → State
   | .latency ms => pollSleeping (setPhase s c (.sleeping (s.now + ms) st)) c (s.now + ms) st
   | .pass => startInner s c st
 
-/-- first poll: the decision block, then error / sleep / inner call -/
-def pollFresh (cfg : Cfg) (s : State) (c tag : Nat) (st : Step) (d : Draws) : State :=
-  enact (record (checked cfg s d) c (decideDraws cfg d).1 (decideDraws cfg d).2) c tag st (decideDraws cfg d).1
+/-- first poll: the decision (observed, checked against the boundary clauses), then error / sleep / inner call -/
+def pollFresh (cfg : Cfg) (s : State) (c k tag : Nat) (st : Step) (dec : Decision) : State :=
+  enact (record (checked cfg s dec) c k dec) c tag st dec
 
 def stepS (cfg : Cfg) (s : State) (op : Op) : State :=
   match op with
   | .adv ms => { s with now := s.now + ms }
   -- a request needs a handle to be made on (`poll_ready` / `call` take `&mut self`)
-  | .arrive c tag st => if s.gone || known s c then s else setPhase s c (.fresh tag st)
+  | .arrive c k tag st => if s.gone || known s c then s else setPhase s c (.fresh k tag st)
   -- The call future owns all it needs (service.rs:55-59: the inner service, `Arc`s of the configuration and of
   -- the generator): nothing of a request that has arrived — polled or not yet polled — changes when the handles go;
   -- its decision is still taken at its first poll, from the same generator.
   | .dropsvc => { s with gone := true }
   | .poll c d =>
       match lookup s.phase c with
-      | some (.fresh tag st) =>
+      | some (.fresh k tag st) =>
           match d with
-          | some d => pollFresh cfg s c tag st d
-          | none => emit s [.raw "choice-not-allowed"]      -- a first poll needs the observed draws
+          | some d => pollFresh cfg s c k tag st d
+          | none => emit s [.raw "choice-not-allowed"]      -- a first poll takes the decision: it must be reported
       | some (.sleeping u st) => pollSleeping s c u st
       | some (.inner k t out) => pollInner s c k t out
       | _ => s
   | .drop c =>
       match lookup s.phase c with
-      | some (.fresh _ _) => setPhase s c .done
+      | some (.fresh _ _ _) => setPhase s c .done
       | some (.sleeping _ _) => setPhase s c .done
       | some (.inner k _ _) => setPhase (emit s [.innerDrop c k]) c .done
       | _ => s
@@ -202,9 +206,10 @@ is the decision block of one request: the code draws all rolls of a request whil
 generator's mutex, so — ASSUMING that mutual exclusion — every parallel execution decides like some
 sequential order of the `K` first polls, and by `decisions_are_seed_stream` the list of decisions is
 then the first `K` entries of the seed's stream whatever that order is. The model has no generator of
-its own (the draws of an ordinary first poll are handed to it); of a stress run it therefore checks
-what must hold for EVERY seed: every call took exactly one decision, and the extremes of the property
-(`stressAllowed`; `TR.Chaos.stress_tally_allowed` shows the tallies of every lawful seed's stream pass). -/
+its own (the decision of an ordinary first poll is handed to it); of a stress run it therefore checks
+what must hold for EVERY decision function: every call took exactly one decision, and the extremes of the
+property (`stressAllowed`; `TR.Chaos.allowed_tally` shows the tallies of every list of allowed decisions pass,
+`TR.Chaos.stress_tally_allowed` that the stream of today's decision function over a lawful generator does). -/
 
 structure Tally where
   ne : Nat      -- calls decided "inject the error"
@@ -243,18 +248,24 @@ def parseTally (kv : Kv) : Option Tally :=
 
 /-! ## line protocol -/
 
-def parseDraws (kv : Kv) : Option Draws :=
-  match kv.optNat "@r1", kv.optNat "@r2", kv.optNat "@g1", kv.optNat "@g2" with
-  | some a, some b, some c, some d => some ⟨a, b, c, d⟩
-  | _, _, _, _ => none
+/-- `@dec=e` injected error, `@dec=p` passed through, `@dec=l<ms>` delayed by `ms` milliseconds: the decision the
+layer reported (through its public event callbacks) while the request was polled for the first time -/
+def parseDec (kv : Kv) : Option Decision :=
+  match kv.get "@dec" with
+  | some v =>
+      if v = "e" then some .error
+      else if v = "p" then some .pass
+      else if v.startsWith "l" then ((v.drop 1).toString.toNat?).map .latency
+      else none
+  | none => none
 
 def parseOp (ws : List String) : Option Op :=
   match ws with
   | "arrive" :: c :: rest =>
       let kv := parseKv rest
       let c := c.toNat?.getD 0
-      some (.arrive c (kv.nat "tag" c) ((planOf kv).headD { lat := 0, out := .ok }))
-  | "poll" :: c :: rest => some (.poll (c.toNat?.getD 0) (parseDraws (parseKv rest)))
+      some (.arrive c (kv.nat "svc" 0) (kv.nat "tag" c) ((planOf kv).headD { lat := 0, out := .ok }))
+  | "poll" :: c :: rest => some (.poll (c.toNat?.getD 0) (parseDec (parseKv rest)))
   | "drop" :: c :: _ => some (.drop (c.toNat?.getD 0))
   | "adv" :: ms :: _ => some (.adv (ms.toNat?.getD 0))
   | "manual" :: "dropsvc" :: _ => some .dropsvc
@@ -322,11 +333,11 @@ def Proto.toEv (p : Proto) : Ev → Ev
 /-- An arrival in caller mode `v`: the `poll_ready` calls of the mode go to the wrapped service (`gate`); refused ⇒
 `result c notready`, no request is made and the machine is not touched; admitted ⇒ the machine's `arrive` — the
 same for every mode. -/
-def arriveVia (cfg : Cfg) (p : Proto) (s : State) (v : Via) (c tag : Nat) (st : Step) : Proto × State × List Ev :=
+def arriveVia (cfg : Cfg) (p : Proto) (s : State) (v : Via) (c k tag : Nat) (st : Step) : Proto × State × List Ev :=
   let g := gate v p.script
   if g.1 then
     let p' := { p with script := g.2, tags := (c, tag) :: p.tags }
-    let s' := stepS cfg s (.arrive c tag st)
+    let s' := stepS cfg s (.arrive c k tag st)
     (p', s', (s'.log.drop s.log.length).map p'.toEv)
   else ({ p with script := g.2 }, s, [.result c .notReady])
 
@@ -361,8 +372,8 @@ def machine : Machine where
         ((p, cfg, s'), s'.log.drop s.log.length)
     | _ =>
       match parseOp ws with
-      | some (.arrive c tag st) =>
-          let r := arriveVia cfg p s (parseVia ((parseKv ws).str "via" "") p.dflt) c tag st
+      | some (.arrive c k tag st) =>
+          let r := arriveVia cfg p s (parseVia ((parseKv ws).str "via" "") p.dflt) c k tag st
           ((r.1, cfg, r.2.1), r.2.2)
       | some op => let s' := stepS cfg s op; ((p, cfg, s'), (s'.log.drop s.log.length).map p.toEv)
       | none => ((p, cfg, s), [])
